@@ -78,28 +78,28 @@ def run(F, R, tier):
             for adt, fld in need:
                 if not any(f["name"] == fld for f in F.adt(adt)["variants"][0]["fields"]):
                     continue
-                tg = lambda n, adt=adt, fld=fld: n.get("k") == "Assign" and peel(n["l"]).get("field") == fld and peel(n["l"]).get("adt") == adt
+                tg = lambda n, adt=adt, fld=fld: n.get("k") == "Assign" and field_of(n["l"]) == fld and peel(n["l"]).get("adt") == adt
                 bad, _ = must_pass(F, arm["body"], tg, exit_kinds=("fallthrough", "return", "break", "continue"))
                 R.ob("C17-a", "%s arm clears %s on every path" % (name, fld), not bad, "a path through the %s arm leaves %s untouched" % (name, fld), where(arm["body"]))
             if name in ("Js", "Wasm"):
-                hd = [n for n in walk(arm["body"]) if n["k"] == "Call" and "f" in n and any(y.get("k") == "Closure" and any(z.get("k") == "Assign" and peel(z["l"]).get("field") == "maybe_type" for z in walk(y)) for y in through_locals(peel(n["f"])))]
+                hd = [n for n in walk(arm["body"]) if n["k"] == "Call" and "f" in n and any(y.get("k") == "Closure" and any(z.get("k") == "Assign" and field_of(z["l"]) == "maybe_type" for z in walk(y)) for y in through_locals(peel(n["f"])))]
                 R.ob("C17-a", "%s arm prunes its dependencies" % name, len(hd) == 1, "handle_dependencies not called for %s modules" % name, where(arm["body"]))
         allv = {v["path"] for v in F.adt("graph::Module")["variants"]}
         R.ob("C17-a", "every module kind is handled explicitly", covered >= allv and not ca, "catch-all or missing module kind: a new kind with type data would be left unpruned", where(mm[0]))
     # the dependency closure clears both fields for every dependency, before queueing
-    hd = [n for n in pt["_nodes"] if n.get("k") == "LetStmt" and "init" in n and peel(n["init"]).get("k") == "Closure" and any(z.get("k") == "Assign" and peel(z["l"]).get("field") == "maybe_type" for z in walk(n["init"]))]
+    hd = [n for n in pt["_nodes"] if n.get("k") == "LetStmt" and "init" in n and peel(n["init"]).get("k") == "Closure" and any(z.get("k") == "Assign" and field_of(z["l"]) == "maybe_type" for z in walk(n["init"]))]
     if R.ob("C17-a", "dependency pruning closure found", len(hd) == 1, "shape changed", pt["file"]):
         clo = peel(hd[0]["init"])
         fors = [n for n in walk(clo) if n["k"] == "For"]
         ok = False
         if fors:
             for fld in ("maybe_type", "maybe_deno_types_specifier"):
-                tg = lambda n, fld=fld: n.get("k") == "Assign" and peel(n["l"]).get("field") == fld
+                tg = lambda n, fld=fld: n.get("k") == "Assign" and field_of(n["l"]) == fld
                 bad, _ = must_pass(F, fors[0]["body"], tg, exit_kinds=("fallthrough", "continue", "break", "return"))
                 R.ob("C17-a", "every dependency has %s cleared" % fld, not bad, "a path through the dependency loop leaves %s" % fld, where(fors[0]))
             # nothing is queued from the type resolution
             adds = [n for n in walk(fors[0]["body"]) if n.get("k") == "MethodCall" and n["name"] == "add"]
-            clear_t = [n for n in walk(fors[0]["body"]) if n.get("k") == "Assign" and peel(n["l"]).get("field") == "maybe_type"]
+            clear_t = [n for n in walk(fors[0]["body"]) if n.get("k") == "Assign" and field_of(n["l"]) == "maybe_type"]
             for a in adds:
                 g = guards_at(F, a, stop_at=fors[0])
                 src = [x for x in g if x.kind == "pat" and x.pol]
@@ -111,8 +111,8 @@ def run(F, R, tier):
                 else:
                     R.ob("C17-b", "code edges are followed", via_code, "worklist add not derived from get_code()", where(a))
     # imports cleared, kind set, on every non-early-return path
-    for what, tg in (("configured type imports are cleared", lambda n: n.get("k") == "MethodCall" and n["name"] == "clear" and peel(n["recv"]).get("field") == "imports"),
-                     ("graph kind becomes CodeOnly", lambda n: n.get("k") == "Assign" and peel(n["l"]).get("field") == "graph_kind" and ctor_of(peel(n["r"])) == "graph::GraphKind::CodeOnly")):
+    for what, tg in (("configured type imports are cleared", lambda n: n.get("k") == "MethodCall" and n["name"] == "clear" and field_of(n["recv"]) == "imports"),
+                     ("graph kind becomes CodeOnly", lambda n: n.get("k") == "Assign" and field_of(n["l"]) == "graph_kind" and ctor_of(peel(n["r"])) == "graph::GraphKind::CodeOnly")):
         fl = Flow(F, tg)
         fl.run(pt["body"]["value"], False)
         bad = []
@@ -125,7 +125,7 @@ def run(F, R, tier):
                 bad.append(node)
         R.ob("C17-a", what + " on every path that prunes", not bad, "a path through prune_types skips it", where(bad[0]) if bad else "")
     # ---------------- C17-b ------------------------------------------------
-    rets = [n for n in pt["_nodes"] if n.get("k") == "MethodCall" and n["name"] == "retain" and peel(n["recv"]).get("field") in ("module_slots", "redirects")]
+    rets = [n for n in pt["_nodes"] if n.get("k") == "MethodCall" and n["name"] == "retain" and field_of(n["recv"]) in ("module_slots", "redirects")]
     R.floor("C17-b retain calls", len(rets), 2)
     for r in rets:
         clo = peel(r["args"][0])
@@ -134,7 +134,7 @@ def run(F, R, tier):
         ok = v.get("k") == "MethodCall" and (v.get("fn") or "").endswith("SeenPendingCollection::has_seen") and peel_value(v["args"][0]).get("lid") == p0.get("lid")
         R.ob("C17-b", "%s retains exactly the walked entries" % peel(r["recv"])["field"], ok, "retain predicate is `%s`" % expr_text(v), where(r))
     # redirects are followed
-    gets = [n for n in pt["_nodes"] if n.get("k") == "MethodCall" and n["name"] == "get" and peel(n["recv"]).get("field") == "redirects"]
+    gets = [n for n in pt["_nodes"] if n.get("k") == "MethodCall" and n["name"] == "get" and field_of(n["recv"]) == "redirects"]
     R.ob("C17-b", "the walk follows redirects", len(gets) == 1, "prune_types no longer consults self.redirects", pt["file"])
     for gt in gets:
         m = gt["_p"]
